@@ -38,6 +38,8 @@ pub struct TransformConfig { pub depth_limit: u32, pub rest: ConfigRest }
 //@ replace-all[R-opaque-type] <<<HashMap<String, SvgElement>>>> => <<<ElemTable>>>
 //@end
 
+//@item src/context.rs :: const MAX_CLIP_CHAIN
+//@end
 pub open spec fn bx(b: BoundingBox) -> (real, real, real, real) { (val(b.x1), val(b.y1), val(b.x2), val(b.y2)) }
 pub uninterp spec fn strp_spec(s: Seq<char>) -> Option<real>;
 pub uninterp spec fn target_of(ctx: TransformerContext, e: SvgElement) -> Option<SvgElement>;
@@ -132,7 +134,7 @@ impl TransformerContext {
 //@       let moved = (val(b0.x1) + dx, val(b0.y1) + dy, val(b0.x2) + dx, val(b0.y2) + dy);
 //@       r->Ok_0 is Some && bx(r->Ok_0->Some_0) == (if el.attrs@.dom().contains("transform"@) { xf_apply(xf_parse(el.attrs@["transform"@])->Some_0, moved) } else { moved }) })     @@C08.use.translated.api
 //@ decreases
-//@ - self.elem_map.count() + 2     @@C01.clip.terminates.api
+//@ - MAX_CLIP_CHAIN + 2     @@C01.clip.terminates.api
 //@end
 
 //@item src/context.rs :: impl TransformerContext :: fn element_bbox_at_depth
@@ -157,7 +159,7 @@ impl TransformerContext {
 //@ - r is Ok && !(el.name@ == "use"@ || el.name@ == "reuse"@) && !el.attrs@.dom().contains("clip-path"@)
 //@     && target_of(*self, *el) is Some ==> own_bbox(target_of(*self, *el)->Some_0) == Some(r->Ok_0)     @@C08.plain.own_box
 //@ decreases
-//@ - self.elem_map.count() + 1 - depth     @@C01.clip.terminates
+//@ - MAX_CLIP_CHAIN + 1 - depth     @@C01.clip.terminates @@C01.clip.chain_depth_bounded_by_a_constant
 //@end
 }
 
